@@ -121,7 +121,7 @@ func init() {
 			{Pkg: "bkl", Func: "HarnessC07_outputs", Tiers: "qt", Covers: []string{"outputs.accepted", "outputs.rejected"},
 				Bound: "the C06 skeleton (any $$-free printable string <= 3 / 5 bytes at one position, one of 25 directive names/shapes at a second) as an emitted subtree in 5 selection shapes: explicit $output:true map, the same below a hidden root, below a hidden inner map, a list selected by a marker entry below a hidden root, nested selections; every emitted document marker-free, a bare $required in it always an error"},
 			{Pkg: "bkl", Func: "HarnessC07_soup", Tiers: "qt", Covers: []string{"soup.output", "soup.error"},
-				Bound: "the C08 directive soup (13 directive keys x 9 argument kinds x 7 positions, alone or as upper of two layers; thorough: plus a second directive map in the same document): whenever evaluation succeeds every emitted document is marker-free"},
+				Bound: "the C08 directive soup (13 directive keys x 9 argument kinds x 7 positions, alone or as upper of two layers; thorough: plus a second directive map {$merge|$replace|$encode|$output|$repeat: a | $\"{a}\" | json | true | 2} in the same document): whenever evaluation succeeds every emitted document is marker-free"},
 			{Pkg: "bkl", Func: "HarnessC07_latin1", Tiers: "qt", Covers: []string{"latin1.lower", "latin1.other"},
 				Bound: "\"$\" followed by EVERY two-byte UTF-8 sequence C2/C3 xx (Latin-1 supplement), optionally one more byte, as value, key and list entry: rejected iff the rune is a lower-case letter, passed through unchanged otherwise"},
 			{Pkg: "bkl", Func: "HarnessC07_encode", Tiers: "qt", Covers: []string{"encode.checked"},
@@ -202,6 +202,8 @@ func init() {
 				Bound: "document {<k>:{x:T,\"p.q\":T2}, h:HOST, o:1} where <k> is EVERY lower-case letter (a symbolic byte); T any tree of depth<=1 (quick) / 2 (thorough); 9 reference spellings (map $merge with dotted / list path / list path through a dotted key, map $replace, $merge: and $replace: strings, list-entry $merge / $replace, YAML flow-list path); local content any subset of {a,b}; compared with the hand-inlined twin through the same pipeline; the target's own output unchanged"},
 			{Pkg: "bkl", Func: "HarnessC10_cross", Tiers: "qt", Covers: []string{"cross.unique", "cross.ambiguous"},
 				Bound: "streams of 2-3 documents with ids; $merge/$replace in {$match,$path} form with a dotted-string or list $path and in [pattern, path...] form, target two levels down next to a literal key \"t.u\"; zero, one or two matching documents"},
+			{Pkg: "bkl", Func: "HarnessC10_chain", Tiers: "qt", Covers: []string{"chain.checked"},
+				Bound: "chains top -> mid -> base with mid a placeholder-only {$merge: base} or with own content; the outer link a $merge (with or without local content), a $replace, a $merge: string, or a path THROUGH mid (string and list form); outer key sorting after or before mid; all equal the hand-inlined document (paths through a not-yet-evaluated mid: known finding C10-K1)"},
 			{Pkg: "bkl", Func: "HarnessC10_listref", Tiers: "qt", Covers: []string{"listref.checked"},
 				Bound: "a list holding a list-form reference of its own, referred to (list-form $merge, map-form $replace) from a key that is evaluated before it: the referenced list comes out as when evaluated alone"},
 			{Pkg: "bkl", Func: "HarnessC10_dangling", Tiers: "qt", Covers: []string{"dangling.checked"},
@@ -279,8 +281,10 @@ func init() {
 				Bound: "per output format {json, jsonl, json-pretty, yaml, toml}: bytes returned for one input keep their content while two further inputs are evaluated, the same input gives the same bytes; natively (replay of every path) additionally 8 goroutines x 40 evaluations. The codecs are a native boundary: this harness is decided by the native replay of all 5 paths, which checks the purity assumption the other harnesses rely on"},
 			{Pkg: "bkl", Func: "HarnessC09_process", Tiers: "qt", Samples: 8, Covers: []string{"process.checked"},
 				Bound: "two evaluations in one process (one engine path: package-level state persists) of a document using $env: between them the variable changes value, is replaced by another variable (same count), one is added, or nothing changes: each evaluation equals what a fresh process gives; sync.Mutex/Once/Pool are modelled single-threaded"},
+			{Pkg: "bkl", Func: "HarnessC09_stream", Tiers: "qt", Samples: 12, Covers: []string{"stream.checked"},
+				Bound: "a stream of three documents each taking its neighbour's interpolated value through a cross-document reference: same result under the three global iteration policies; the engine runs goroutines (if any) to completion where they start - the native replay repeats the evaluation 300 times with real scheduling"},
 			{Pkg: "bkl", Func: "HarnessC09_soup", Tiers: "qt", Covers: []string{"soup.output", "soup.error"},
-				Bound: "the C08 directive soup (13 directive keys x 9 argument kinds x 7 positions, alone or as upper of two layers; thorough: plus a second directive map in the same document): result under three global iteration policies applied to every range at once (reversed, rotated left, rotated right) equals the insertion-order result"},
+				Bound: "the C08 directive soup (13 directive keys x 9 argument kinds x 7 positions, alone or as upper of two layers; thorough: plus a second directive map {$merge|$replace|$encode|$output|$repeat: a | $\"{a}\" | json | true | 2} in the same document): result under three global iteration policies applied to every range at once (reversed, rotated left, rotated right) equals the insertion-order result"},
 			{Pkg: "bkl", Func: "HarnessC09_order", Tiers: "qt", Order: true, Covers: []string{"order.output", "order.error"},
 				Bound: "9 input families (3-key maps with nulls, 4 $output selections, 3 named $repeat counts, flags/values transforms, layering with $delete and additions, $merge with overlapping keys, interpolated/$env keys of which two collide after evaluation, several $required, a $merge whose target lies inside its own host); leaves symbolic-kind scalars; one (quick) / two (thorough) `range`-over-map instances per evaluation leave insertion order, over all permutations and with inserted keys visited or not; every path compared with a canonical reference run"},
 		},
@@ -294,7 +298,7 @@ func init() {
 		ID: "C19",
 		Harnesses: []harnessSpec{
 			{Pkg: "bkl", Func: "HarnessC19_soup", Tiers: "qt", Covers: []string{"soup.output", "soup.error"},
-				Bound: "the C08 directive soup (13 directive keys x 9 argument kinds x 7 positions, alone or as upper of two layers; thorough: plus a second directive map in the same document): two successive outputs agree and the stored documents are unchanged by them"},
+				Bound: "the C08 directive soup (13 directive keys x 9 argument kinds x 7 positions, alone or as upper of two layers; thorough: plus a second directive map {$merge|$replace|$encode|$output|$repeat: a | $\"{a}\" | json | true | 2} in the same document): two successive outputs agree and the stored documents are unchanged by them"},
 			{Pkg: "bkl", Func: "HarnessC19_history", Tiers: "qt", Covers: []string{"history.repeat", "history.merge", "history.documents", "history.withoutput"},
 				Bound: "1-2 documents from 13 families (a list-rooted document with a cross-document $merge next to other keys, two entries of one map evaluating to the same key (interpolated key vs literal; repeated map entry vs literal), $merge, $replace + $merge: string, document $repeat, $encode, $output true/false + list $repeat, interpolation + null, plain, forward cross-document $replace, its target holding a nested $merge, $merge maps inside a list-valued key), then 3 (quick) / 4 (thorough) calls each chosen from {OutputDocuments, MergeDocument(next layer: add key | change value | change what a nested $merge resolves to | $match: null append), Documents}; a twin parser receives the same merges and is never asked for output; successive outputs run under different global iteration policies of the evaluator's map ranges (insertion, reversed, rotated); leaves symbolic when there is one document"},
 		},
